@@ -34,7 +34,9 @@ func ruleDistributor(w *World, r *Run) {
 	d := recvParam(fn)
 	ctx, l := paramN(fn, 0), paramN(fn, 1)
 	lf := func(n string) *Term { return mk("field", n, 0, nil, l) }
-	df := func(n string) *Term { return mk("field", n, 0, nil, d) }
+	df := func(n string) *Term {
+		return fieldByType(d, map[string]string{"witness": "rest.Witness", "baseURL": "string", "client": "*http.Client", "witSigV": "note.Verifier", "logs": "[]config.Log"}[n])
+	}
 	zeroI := mk("const", "0", 0, types.Typ[types.Int])
 	_ = zeroI
 	nOK := 0
@@ -159,7 +161,7 @@ func ruleDistributeOnce(w *World, r *Run) {
 	}
 	fn := w.fn(fnDistOnce)
 	d := recvParam(fn)
-	logs := mk("field", "logs", 0, nil, d)
+	logs := fieldByType(d, "[]config.Log")
 	ln := mk("len", "", 0, types.Typ[types.Int], logs)
 	maxIter := 0
 	for _, s := range sums {
@@ -198,14 +200,14 @@ func ruleDistributeOnce(w *World, r *Run) {
 
 func ruleReadAPI(w *World, r *Run) {
 	// ---- C16.a HANDLER-VERBATIM
-	if sums, _, ok := explore(w, r, "C16.a", fnHGetCP, 0, 1); ok {
+	if sums, _, ok := exploreOpaque(w, r, "C16.a", fnHGetCP, 4, 1, fnGetCheckpoint, fnGetLogs, fnHForCode); ok {
 		fn := w.fn(fnHGetCP)
 		srv := recvParam(fn)
 		rw, req := paramN(fn, 0), paramN(fn, 1)
 		nOK := 0
 		for _, s := range sums {
 			gc := calls(s, fnGetCheckpoint)
-			if len(gc) != 1 || gc[0].Recv != mk("field", "w", 0, nil, srv) {
+			if len(gc) != 1 || gc[0].Recv != fieldByType(srv, "*witness.Witness") {
 				r.Fail("C16.a", fnHGetCP+" | reads through the witness", w.pos(s.RetPos), "handler does not call Witness.GetCheckpoint exactly once")
 				continue
 			}
@@ -305,7 +307,7 @@ func ruleReadAPI(w *World, r *Run) {
 		}
 	}
 	// ---- C16.d LOG-LIST
-	if sums, _, ok := explore(w, r, "C16.d", fnHGetLogs, 0, 1); ok {
+	if sums, _, ok := exploreOpaque(w, r, "C16.d", fnHGetLogs, 4, 1, fnGetCheckpoint, fnGetLogs, fnHForCode); ok {
 		fn := w.fn(fnHGetLogs)
 		nOK := 0
 		for _, s := range sums {
